@@ -227,13 +227,16 @@ func zzGen(mask int, depth int, allowNullable bool) (*schemas.Type, *zzSpec) {
 		s.kind = "number"
 		t.Type = zzTypeList("number", nullable)
 		zzNumericShape(t, s)
+		zzAnnotationFormat(t)
 	case zzKInteger:
 		s.kind = "integer"
 		t.Type = zzTypeList("integer", nullable)
 		zzNumericShape(t, s)
+		zzAnnotationFormat(t)
 	case zzKBoolean:
 		s.kind = "boolean"
 		t.Type = zzTypeList("boolean", nullable)
+		zzAnnotationFormat(t)
 	case zzKFormat:
 		s.kind = "string"
 		t.Type = zzTypeList("string", nullable)
@@ -512,4 +515,14 @@ func zzParsedBounds(t *schemas.Type, s *zzSpec) {
 	}
 	s.min, s.max, s.exMin, s.exMax = num("minimum"), num("maximum"), excl("exclusiveMinimum"), excl("exclusiveMaximum")
 	t.Minimum, t.Maximum, t.ExclusiveMinimum, t.ExclusiveMaximum = pt.Minimum, pt.Maximum, pt.ExclusiveMinimum, pt.ExclusiveMaximum
+}
+
+// zzAnnotationFormat (NONSTRFMT=1): a `format` on a number, integer or boolean schema. The
+// formats are defined for strings; on any other type the keyword is an annotation and the
+// value keeps the JSON type the schema states.
+func zzAnnotationFormat(t *schemas.Type) {
+	if zzvrt.Param("NONSTRFMT", 0) == 1 && zzvrt.Bool() {
+		fs := []string{"date-time", "date", "time", "ipv4", "ipv6", "email"}
+		t.Format = fs[zzvrt.Choice(len(fs))]
+	}
 }
